@@ -533,7 +533,7 @@ func runConcurrent(c *core.Ctx) {
 		if alldone {
 			break
 		}
-		c.Fail("HARNESS.stuck", "no event to inject but drivers are not done: %s", c.S.StalledString())
+		c.Stuck("no event to inject but drivers are not done: %s", c.S.StalledString())
 		return
 	}
 	// final drain: clear the context; afterwards no instance may be live and every instance returns
